@@ -16,6 +16,7 @@ pub mod c10;
 pub mod c11;
 pub mod c11_interop;
 pub mod c12;
+pub mod c12_pc;
 pub mod c13;
 pub mod c14;
 pub mod c14_pc;
